@@ -633,11 +633,13 @@ def gen_exit_drain(rng, facts):
             if rng.random() < 0.5:
                 inj.append((rng.choice([3, 4, 5]), rng.choice([0, 1]), [('resume', rng.randrange(nt))]))
             c.poll(inj)
+    n0 = len(c.cmds)
     for _ in range(4):
         for t in range(nt): c.resume(t)
         c.tick(5000)
         for _ in range(10): c.poll()
     c.ctx()
+    c.keep_tail = len(c.cmds) - n0
     return c
 
 
@@ -680,6 +682,7 @@ def gen_stop(rng, facts):
     elif r < 0.6: burst(t)
     elif r < 0.7: c.log(t)
     if rng.random() < 0.4 and t in alive and len(alive) > 1: c.exit(t); alive.discard(t)
+    n0 = len(c.cmds)
     c.stop(0 if grace == 0 else rng.choice([grace // 3, grace, 5 * grace]))
     c.ctx()
     # the backend keeps working after a stop
@@ -689,6 +692,7 @@ def gen_stop(rng, facts):
         c.tick(20000)
         for _ in range(8): c.poll()
     c.ctx()
+    c.keep_tail = len(c.cmds) - n0
     return c
 
 
